@@ -3,7 +3,7 @@
    theorems KG_<f>.<f>_ok, stated without the record.  For EVERY environment, i.e. whatever the crypto backend, the object
    store and the handle manager answer.  (C06, C08, C09, C11) *)
 From Coq Require Import List NArith Bool.
-From SoftHSM Require Import Gen_Const Gen_Keys KeyGenSpec KG_index.
+From SoftHSM Require Import Gen_Const Gen_Keys KeyGenSpec KG_index KG_tails.
 Import ListNotations.
 Local Open Scope N_scope.
 
@@ -161,6 +161,73 @@ Proof.
   pose proof (C_UnwrapKey_ok e) as K. cbv zeta.
   split; [exact (kg_fail_clean _ _ _ _ _ _ _ _ _ _ K) | split; [exact (kg_fail_handle _ _ _ _ _ _ _ _ _ _ K) | split; [| split; [exact (kg_own_handle _ _ _ _ _ _ _ _ _ _ K) | exact (kg_own_object _ _ _ _ _ _ _ _ _ _ K)]]]].
   intros Hok; split; [exact (kg_ok_keeps _ _ _ _ _ _ _ _ _ _ K Hok) | exact (kg_ok_commits _ _ _ _ _ _ _ _ _ _ K Hok)].
+Qed.
+
+(* ---- PARTIAL: the clean-up tails of all 18 key-creating functions, each in isolation -------------------------------------------
+   `<f>_tail e d rv acc r` (generated, gen/KG_tails.v) says that r is what the continuation of <f> that begins with
+   `if (rv != CKR_OK)` and unregisters a handle returns when entered with `*phKey` = d, the return code rv and the effects acc.
+   For every environment that continuation returns rv unchanged and, when rv is not CKR_OK, for each handle variable that is
+   not CK_INVALID_HANDLE: look-up, unregistration, destruction of the object found, CK_INVALID_HANDLE to the caller - the
+   private key's handle first, then the public key's, for the key-pair generators.  What is missing for the full statement
+   (proved above for six functions): that every failing path after CreateObject reaches this continuation with the handle
+   CreateObject produced - the key-pair generators and the derive functions are not yet executed symbolically to their end. *)
+Theorem cleanup_tails_partial :
+  (forall (e : generateAES.env) (drf_phKey : N) (rv : N) (acc : list (N * N)) (r : R), generateAES_tail e drf_phKey rv acc r ->
+     r = (rv, (if rv =? 0 then [] else (if drf_phKey =? 0 then [] else cleanup 18446744073709551517 drf_phKey (generateAES.handleManager_getObject e))) ++ acc)) /\
+  (forall (e : generateDES.env) (drf_phKey : N) (rv : N) (acc : list (N * N)) (r : R), generateDES_tail e drf_phKey rv acc r ->
+     r = (rv, (if rv =? 0 then [] else (if drf_phKey =? 0 then [] else cleanup 18446744073709551517 drf_phKey (generateDES.handleManager_getObject e))) ++ acc)) /\
+  (forall (e : generateDES2.env) (drf_phKey : N) (rv : N) (acc : list (N * N)) (r : R), generateDES2_tail e drf_phKey rv acc r ->
+     r = (rv, (if rv =? 0 then [] else (if drf_phKey =? 0 then [] else cleanup 18446744073709551517 drf_phKey (generateDES2.handleManager_getObject e))) ++ acc)) /\
+  (forall (e : generateDES3.env) (drf_phKey : N) (rv : N) (acc : list (N * N)) (r : R), generateDES3_tail e drf_phKey rv acc r ->
+     r = (rv, (if rv =? 0 then [] else (if drf_phKey =? 0 then [] else cleanup 18446744073709551517 drf_phKey (generateDES3.handleManager_getObject e))) ++ acc)) /\
+  (forall (e : generateGeneric.env) (drf_phKey : N) (rv : N) (acc : list (N * N)) (r : R), generateGeneric_tail e drf_phKey rv acc r ->
+     r = (rv, (if rv =? 0 then [] else (if drf_phKey =? 0 then [] else cleanup 18446744073709551517 drf_phKey (generateGeneric.handleManager_getObject e))) ++ acc)) /\
+  (forall (e : generateRSA.env) (drf_phPublicKey : N) (drf_phPrivateKey : N) (rv : N) (acc : list (N * N)) (r : R), generateRSA_tail e drf_phPublicKey drf_phPrivateKey rv acc r ->
+     r = (rv, (if rv =? 0 then [] else (if drf_phPublicKey =? 0 then [] else cleanup 18446744073709551515 drf_phPublicKey (generateRSA.handleManager_getObject e)) ++ (if drf_phPrivateKey =? 0 then [] else cleanup 18446744073709551514 drf_phPrivateKey (generateRSA.handleManager_getObject e))) ++ acc)) /\
+  (forall (e : generateDSA.env) (drf_phPublicKey : N) (drf_phPrivateKey : N) (rv : N) (acc : list (N * N)) (r : R), generateDSA_tail e drf_phPublicKey drf_phPrivateKey rv acc r ->
+     r = (rv, (if rv =? 0 then [] else (if drf_phPublicKey =? 0 then [] else cleanup 18446744073709551515 drf_phPublicKey (generateDSA.handleManager_getObject e)) ++ (if drf_phPrivateKey =? 0 then [] else cleanup 18446744073709551514 drf_phPrivateKey (generateDSA.handleManager_getObject e))) ++ acc)) /\
+  (forall (e : generateDSAParameters.env) (drf_phKey : N) (rv : N) (acc : list (N * N)) (r : R), generateDSAParameters_tail e drf_phKey rv acc r ->
+     r = (rv, (if rv =? 0 then [] else (if drf_phKey =? 0 then [] else cleanup 18446744073709551517 drf_phKey (generateDSAParameters.handleManager_getObject e))) ++ acc)) /\
+  (forall (e : generateEC.env) (drf_phPublicKey : N) (drf_phPrivateKey : N) (rv : N) (acc : list (N * N)) (r : R), generateEC_tail e drf_phPublicKey drf_phPrivateKey rv acc r ->
+     r = (rv, (if rv =? 0 then [] else (if drf_phPublicKey =? 0 then [] else cleanup 18446744073709551515 drf_phPublicKey (generateEC.handleManager_getObject e)) ++ (if drf_phPrivateKey =? 0 then [] else cleanup 18446744073709551514 drf_phPrivateKey (generateEC.handleManager_getObject e))) ++ acc)) /\
+  (forall (e : generateED.env) (drf_phPublicKey : N) (drf_phPrivateKey : N) (rv : N) (acc : list (N * N)) (r : R), generateED_tail e drf_phPublicKey drf_phPrivateKey rv acc r ->
+     r = (rv, (if rv =? 0 then [] else (if drf_phPublicKey =? 0 then [] else cleanup 18446744073709551515 drf_phPublicKey (generateED.handleManager_getObject e)) ++ (if drf_phPrivateKey =? 0 then [] else cleanup 18446744073709551514 drf_phPrivateKey (generateED.handleManager_getObject e))) ++ acc)) /\
+  (forall (e : generateDH.env) (drf_phPublicKey : N) (drf_phPrivateKey : N) (rv : N) (acc : list (N * N)) (r : R), generateDH_tail e drf_phPublicKey drf_phPrivateKey rv acc r ->
+     r = (rv, (if rv =? 0 then [] else (if drf_phPublicKey =? 0 then [] else cleanup 18446744073709551515 drf_phPublicKey (generateDH.handleManager_getObject e)) ++ (if drf_phPrivateKey =? 0 then [] else cleanup 18446744073709551514 drf_phPrivateKey (generateDH.handleManager_getObject e))) ++ acc)) /\
+  (forall (e : generateDHParameters.env) (drf_phKey : N) (rv : N) (acc : list (N * N)) (r : R), generateDHParameters_tail e drf_phKey rv acc r ->
+     r = (rv, (if rv =? 0 then [] else (if drf_phKey =? 0 then [] else cleanup 18446744073709551517 drf_phKey (generateDHParameters.handleManager_getObject e))) ++ acc)) /\
+  (forall (e : generateGOST.env) (drf_phPublicKey : N) (drf_phPrivateKey : N) (rv : N) (acc : list (N * N)) (r : R), generateGOST_tail e drf_phPublicKey drf_phPrivateKey rv acc r ->
+     r = (rv, (if rv =? 0 then [] else (if drf_phPublicKey =? 0 then [] else cleanup 18446744073709551515 drf_phPublicKey (generateGOST.handleManager_getObject e)) ++ (if drf_phPrivateKey =? 0 then [] else cleanup 18446744073709551514 drf_phPrivateKey (generateGOST.handleManager_getObject e))) ++ acc)) /\
+  (forall (e : deriveDH.env) (drf_phKey : N) (rv : N) (acc : list (N * N)) (r : R), deriveDH_tail e drf_phKey rv acc r ->
+     r = (rv, (if rv =? 0 then [] else (if drf_phKey =? 0 then [] else cleanup 18446744073709551515 drf_phKey (deriveDH.handleManager_getObject e))) ++ acc)) /\
+  (forall (e : deriveECDH.env) (drf_phKey : N) (rv : N) (acc : list (N * N)) (r : R), deriveECDH_tail e drf_phKey rv acc r ->
+     r = (rv, (if rv =? 0 then [] else (if drf_phKey =? 0 then [] else cleanup 18446744073709551515 drf_phKey (deriveECDH.handleManager_getObject e))) ++ acc)) /\
+  (forall (e : deriveEDDSA.env) (drf_phKey : N) (rv : N) (acc : list (N * N)) (r : R), deriveEDDSA_tail e drf_phKey rv acc r ->
+     r = (rv, (if rv =? 0 then [] else (if drf_phKey =? 0 then [] else cleanup 18446744073709551515 drf_phKey (deriveEDDSA.handleManager_getObject e))) ++ acc)) /\
+  (forall (e : deriveSymmetric.env) (drf_phKey : N) (rv : N) (acc : list (N * N)) (r : R), deriveSymmetric_tail e drf_phKey rv acc r ->
+     r = (rv, (if rv =? 0 then [] else (if drf_phKey =? 0 then [] else cleanup 18446744073709551515 drf_phKey (deriveSymmetric.handleManager_getObject e))) ++ acc)) /\
+  (forall (e : C_UnwrapKey.env) (drf_hKey : N) (rv : N) (acc : list (N * N)) (r : R), C_UnwrapKey_tail e drf_hKey rv acc r ->
+     r = (rv, (if rv =? 0 then [] else (if drf_hKey =? 0 then [] else cleanup 18446744073709551513 drf_hKey (C_UnwrapKey.handleManager_getObject e))) ++ acc)).
+Proof.
+  repeat match goal with |- _ /\ _ => split end.
+  - exact generateAES_cleanup_tail.
+  - exact generateDES_cleanup_tail.
+  - exact generateDES2_cleanup_tail.
+  - exact generateDES3_cleanup_tail.
+  - exact generateGeneric_cleanup_tail.
+  - exact generateRSA_cleanup_tail.
+  - exact generateDSA_cleanup_tail.
+  - exact generateDSAParameters_cleanup_tail.
+  - exact generateEC_cleanup_tail.
+  - exact generateED_cleanup_tail.
+  - exact generateDH_cleanup_tail.
+  - exact generateDHParameters_cleanup_tail.
+  - exact generateGOST_cleanup_tail.
+  - exact deriveDH_cleanup_tail.
+  - exact deriveECDH_cleanup_tail.
+  - exact deriveEDDSA_cleanup_tail.
+  - exact deriveSymmetric_cleanup_tail.
+  - exact C_UnwrapKey_cleanup_tail.
 Qed.
 
 (* the premises are met somewhere: an environment in which generateAES gets as far as creating the object (handle 7, object 9)
